@@ -129,8 +129,13 @@ def inShared (st : St) (name : String) : Bool :=
 /-! ### the `_RESERVED_` range syntax: `re.search(r"\s*(?P<start>[0-9]+)\s*(\-|to)\s*(?P<end>[0-9]+)\s*", e)` -/
 
 def isDigit (c : Char) : Bool := '0' ≤ c && c ≤ '9'
-/-- ASCII subset of Python's `\s` -/
-def isWs (c : Char) : Bool := c == ' ' || c == '\t' || c == '\n' || c == '\r' || c == '\x0b' || c == '\x0c'
+/-- Python's `\s` in a `str` pattern (no `re.ASCII`): exactly the characters with `str.isspace()` — TAB LF VT FF CR,
+FS GS RS US, SPACE, NEL, NBSP, OGHAM SPACE MARK, EN QUAD … HAIR SPACE, LINE / PARAGRAPH SEPARATOR, NARROW NBSP,
+MEDIUM MATHEMATICAL SPACE, IDEOGRAPHIC SPACE.  (The harness enumerates every code point against the real `re`.) -/
+def isWs (c : Char) : Bool :=
+  let n := c.toNat
+  (9 ≤ n && n ≤ 13) || (28 ≤ n && n ≤ 32) || n == 0x85 || n == 0xa0 || n == 0x1680 || (0x2000 ≤ n && n ≤ 0x200a) ||
+  n == 0x2028 || n == 0x2029 || n == 0x202f || n == 0x205f || n == 0x3000
 
 def digitsVal (ds : List Char) : Nat := ds.foldl (fun a c => 10 * a + (c.toNat - 48)) 0
 
